@@ -31,10 +31,10 @@ TIERS = {
 # wildcard paths: '*' among the parent segments, del at every match in order
 STAR = {
     'quick': dict(Mutant='"none"', MaxSpine='2', LevelClasses='{"dict","list"}', LeafOpts='{"none","edict"}',
-                  SideOpts='{"shared"}', Alpha='"small"', Alpha3='"none"', Stars='"only"'),
+                  SideOpts='{"mixobj","mixlist"}', Alpha='"small"', Alpha3='"none"', Stars='"only"'),
     'thorough': dict(Mutant='"none"', MaxSpine='2', LevelClasses='{"dict","list","tuple","obj"}',
-                     LeafOpts='{"none","str","edict"}', SideOpts='{"none","shared"}', Alpha='"small"', Alpha3='"none"',
-                     Stars='"only"'),
+                     LeafOpts='{"none","edict"}', SideOpts='{"none","shared","mixobj","mixdict","mixlist"}',
+                     Alpha='"small"', Alpha3='"none"', Stars='"only"'),
 }
 THOROUGH_WIDE = dict(Mutant='"none"', MaxSpine='1', LevelClasses=_ALL,
                      LeafOpts='{"none","str","edict","elist","fset"}',
